@@ -336,6 +336,18 @@ Fixpoint outs (s : state) (h : list op) : list out :=
   | o :: r => snd (step s o) :: outs (fst (step s o)) r
   end.
 
+(* ---- an I/O fault that the harness can produce in the running process: no
+   file descriptor can be allocated (EMFILE), so CreateTemp of rewrite() and
+   OpenFile of add() fail; os.Remove of the last-token case needs none and
+   succeeds.  [wstep true] is the write operation under that fault: an
+   instance of [OFail]. ---- *)
+Definition fd_fail_index (p : list sys) : nat :=
+  match p with SysUnlink :: _ => length p | _ => 0%nat end.
+Definition wstep (fault : bool) (s : state) (w : wop) : state * out :=
+  if fault
+  then step s (OFail w (fd_fail_index (pl_prog (wplan (s_mem s) (s_file s) w))))
+  else step s (ODo w).
+
 (* ---- the HTTP token handlers (webserver/api.go, tokensHandler), as far as
    they use the store.  Each handler reads the token and its tag with Get,
    evaluates If-Match / If-None-Match against that tag ("" = the object does
@@ -375,7 +387,7 @@ Definition http_error (r : res) : Z :=
 Definition with_name (t : token) (g n : Z) : token :=
   mkTok n g (tk_exp t) (tk_nbf t) (tk_data t).
 
-Definition api_step (s : state) (q : areq) : state * aresp :=
+Definition api_step_f (fault : bool) (s : state) (q : areq) : state * aresp :=
   match q with
   | AGet g n im inm =>
     let (s1, o) := step s (OGet n) in
@@ -395,7 +407,7 @@ Definition api_step (s : state) (q : areq) : state * aresp :=
     | r => (s1, mkResp (http_error r) None [])
     end
   | APost g t st0 st =>
-    let (s1, o) := step s (ODo (WUpdate (with_name t g (tk_name t)) None st0 st)) in
+    let (s1, o) := wstep fault s (WUpdate (with_name t g (tk_name t)) None st0 st) in
     match o_res o with
     | ROk => (s1, mkResp 201 None [])
     | r => (s1, mkResp (http_error r) None [])
@@ -406,7 +418,7 @@ Definition api_step (s : state) (q : areq) : state * aresp :=
       match check_pre false e im inm with
       | Some c => (s1, mkResp c None [])
       | None =>
-        let (s2, o2) := step s1 (ODo (WUpdate (with_name t g n) e st0 st)) in
+        let (s2, o2) := wstep fault s1 (WUpdate (with_name t g n) e st0 st) in
         match o_res o2 with
         | ROk => (s2, mkResp (match e with None => 201 | Some _ => 204 end) None [])
         | r => (s2, mkResp (http_error r) None [])
@@ -427,7 +439,7 @@ Definition api_step (s : state) (q : areq) : state * aresp :=
       else match check_pre false (o_etag o) im inm with
            | Some c => (s1, mkResp c None [])
            | None =>
-             let (s2, o2) := step s1 (ODo (WDelete n (o_etag o) st)) in
+             let (s2, o2) := wstep fault s1 (WDelete n (o_etag o) st) in
              match o_res o2 with
              | ROk => (s2, mkResp 204 None [])
              | r => (s2, mkResp (http_error r) None [])
@@ -435,4 +447,35 @@ Definition api_step (s : state) (q : areq) : state * aresp :=
            end
     | r, _ => (s1, mkResp (http_error r) None [])
     end
+  end.
+
+Definition api_step (s : state) (q : areq) : state * aresp := api_step_f false s q.
+
+(* ---- the token commands of the signalling protocol (rtpconn/webclient.go,
+   groupaction maketoken / edittoken / listtokens), as far as they use the
+   store; the sender has the op and token permissions.  edittoken reads the
+   token and its tag, applies the new expiry / not-before to a COPY, and
+   calls Update with the tag it has just read. ---- *)
+Inductive sreq :=
+| SMake (t : token) (st0 st : stamp)                       (* tk_name t: the random name *)
+| SEdit (g n : Z) (exp nbf : option Z) (st0 st : stamp)
+| SList (g : Z).
+
+Definition sig_step (fault : bool) (s : state) (q : sreq) : state * out :=
+  match q with
+  | SMake t st0 st => wstep fault s (WUpdate t None st0 st)
+  | SEdit g n exp nbf st0 st =>
+    let (s1, o) := step s (OGet n) in
+    match o_res o, o_toks o with
+    | ROk, old :: _ =>
+      if negb (tk_group old =? g) then (s1, mkOut ROther None [])
+      else
+        let t := mkTok (tk_name old) (tk_group old)
+                       (match exp with Some e => Some e | None => tk_exp old end)
+                       (match nbf with Some b => Some b | None => tk_nbf old end)
+                       (tk_data old) in
+        wstep fault s1 (WUpdate t (o_etag o) st0 st)
+    | r, _ => (s1, mkOut r None [])
+    end
+  | SList g => step s (OList g)
   end.
